@@ -8,12 +8,14 @@ import DriverLib.Basic
 import DriverLib.C01
 import DriverLib.C04
 import DriverLib.C03
+import DriverLib.C19
 open Lean Drv
 
 def handlers : List (String → Json → Option (R Json)) := [
   Drv.C01.handle,
   Drv.C04.handle,
   Drv.C03.handle,
+  Drv.C19.handle,
   fun _ _ => none]
 
 def dispatch (line : String) : Json :=
